@@ -1353,6 +1353,8 @@ def concrete_eval(ctx: Ctx, f: FunctionInfo, e: Optional[ast.AST], env: Dict[str
             return a + b
         if isinstance(a, (int, float)) and isinstance(b, (int, float)) and not isinstance(a, bool) and not isinstance(b, bool):
             return a + b
+        if isinstance(a, tuple) and isinstance(b, tuple) and not isinstance(a, PartialTuple) and not isinstance(b, PartialTuple):
+            return a + b  # `ENV_TRUE_VALUES + ("on",)`
         return UNKNOWN
     if isinstance(e, ast.BinOp) and isinstance(e.op, ast.Mod):
         a, b = ev(e.left), ev(e.right)
